@@ -766,7 +766,8 @@ def run_split(nap, res, tier, plan=None, tag="split"):
                 lines.append("split\t%d\t%d\t%s\t%s" % (asplit, 0 if kind == "sections" else 1, str(ios) if kind == "sections" else C.fmt_ints(ios), ts6(nap, x)))
         # not along axis 0 of the model: hsplit / dsplit / split(axis=1)
         for fname, func in [("hsplit", lambda a, s: np.hsplit(a, s)), ("dsplit", lambda a, s: np.dsplit(a, s)), ("split(axis=1)", lambda a, s: np.split(a, s, axis=1)),
-                            ("array_split(axis=1)", lambda a, s: np.array_split(a, s, axis=1))]:
+                            ("array_split(axis=1)", lambda a, s: np.array_split(a, s, axis=1)),
+                            ("split(a,s,1)", lambda a, s: np.split(a, s, 1)), ("array_split(a,s,1)", lambda a, s: np.array_split(a, s, 1))]:
             for ios in oioss:
                 x = mk(nap, shape)
                 xv = np.array(x.values)
